@@ -57,8 +57,10 @@ theorem changes_terminal (w : ActWorld) (ops : List ActOp) (h : w.state.terminal
     simp only [changes, h1, if_true, Nat.zero_add]
     exact ih _ (by rw [h1]; exact h)
 
-/-- **exactly once**: in any history an action changes state at most once
-(pending → completed or pending → cancelled). -/
+/-- **exactly once** — the safety half: in any history an action changes state AT MOST once
+(pending → completed or pending → cancelled); that a created action eventually IS executed or cancelled is a
+liveness statement about keepers and is not claimed. Together with `transitions_only_from_pending` this is
+"never executed twice, never cancelled after completion, never completed after cancellation". -/
 theorem exactly_once (w : ActWorld) (ops : List ActOp) : changes w ops ≤ 1 := by
   induction ops generalizing w with
   | nil => exact Nat.zero_le _
